@@ -80,6 +80,7 @@ async def history(acc, clock, rnd, cid):
     trace = [role, f"n0={n0}"]
     w = {"trace": trace}
     refused = accepted = 0
+    skipped = set()
     peer = E.Peer("PEER", "ME")
     connected = False
 
@@ -112,6 +113,12 @@ async def history(acc, clock, rnd, cid):
                 V("journal:row-differs-from-wire", f"number {n}: journal has {len(row)} row(s) {[fixwire.show(r)[:80] for r in row]} wire {fixwire.show(fb)[:80]}")
                 return False
             exp_next = n + 1
+        # numbers the application jumped over were never used: the journal has no row for them
+        if skipped:
+            have = {j.find_seq_no(r) for r in j.recover_messages(ep._session, D.OUTBOUND, 0, sys.maxsize)}
+            if have & skipped:
+                V("journal:row-under-a-number-that-was-skipped", f"rows under {sorted(have & skipped)[:5]}: numbers the application's SequenceReset jumped over")
+                return False
         acc.oracle("bystander-session-untouched")
         if bystander() != by0:
             b1 = bystander()
@@ -137,11 +144,13 @@ async def history(acc, clock, rnd, cid):
         nsteps = rnd.randrange(10, 41)
         for step in range(nsteps):
             st = ep.connection_state
-            acts = ["send_app", "send_app", "send_app_stale34", "send_app_dupflag_n", "send_hb", "send_tr", "send_test_req", "send_rr", "send_logon", "send_logout"]
+            acts = ["send_app", "send_app", "send_app_stale34", "send_app_dupflag_n", "send_hb", "send_tr", "send_test_req", "send_rr", "send_logon", "send_logout",
+                    "send_seqreset", "send_seqreset_renumber"]
             if not connected:
                 acts += ["attach"] * 6
             else:
-                acts += ["in_logon", "in_testreq", "in_gapfill", "in_resendreq", "in_gap", "in_app", "in_app", "in_badhb", "in_toolow", "in_logout", "disconnect"]
+                acts += ["in_logon", "in_testreq", "in_gapfill", "in_resendreq", "in_gap", "in_app", "in_app", "in_badhb", "in_toolow", "in_logout", "disconnect",
+                         "overlap_disconnect"]
             a = rnd.choice(acts)
             before = snapshot()
             tap0 = before[0]
@@ -179,6 +188,11 @@ async def history(acc, clock, rnd, cid):
                      "send_app_stale34": lambda: FIXMessage("D", {11: f"s{step}", 55: "X", 34: rnd.choice([1, 999, max(1, exp_next - 1)])}), "send_hb": lambda: FIXMessage("0"),
                      "send_tr": lambda: FIXMessage("1", {112: "manual"}), "send_rr": lambda: FIXMessage("2", {7: 1, 16: 0}),
                      "send_logon": lambda: FIXMessage("A", {98: 0, 108: 30}), "send_logout": lambda: FIXMessage("5", {58: "bye"}),
+                     # the application announces a jump of its outbound numbering (Reset mode): the SequenceReset carries the next number
+                     # itself, is not a new message, takes no number and is not journaled; with _renumber the application then moves the
+                     # counter as the library's API provides
+                     "send_seqreset": lambda: FIXMessage("4", {34: exp_next, 36: exp_next + 3}),
+                     "send_seqreset_renumber": lambda: FIXMessage("4", {34: exp_next, 36: exp_next + 3}),
                      "send_test_req": None}[a]
                 try:
                     if a == "send_test_req":
@@ -187,6 +201,10 @@ async def history(acc, clock, rnd, cid):
                         await ep.send_msg(m())
                     accepted += 1
                     trace[-1] += ":ok"
+                    if a == "send_seqreset_renumber":
+                        j.set_seq_num(ep._session, next_num_out=exp_next + 3)
+                        skipped.update(range(exp_next, exp_next + 3))
+                        exp_next += 3
                 except FIXConnectionError as e:
                     refused += 1
                     trace[-1] += ":refused"
@@ -232,6 +250,42 @@ async def history(acc, clock, rnd, cid):
                 ep.vf_reader.feed(peer.frame("8", max(1, peer.next_out - 3), [(11, "low")]))
             elif a == "in_logout":
                 ep.vf_reader.feed(peer.frame("5", None, [(58, "bye")]))
+            elif a == "overlap_disconnect":
+                # two application tasks send while the peer does not read (the first is parked in drain()); the connection is taken
+                # down before the transport lets go.  Whatever was numbered was handed to the transport while the connection was up.
+                import asyncio
+                gate = asyncio.Event()
+                writer = ep.vf_writer
+
+                async def parked_drain():
+                    await gate.wait()
+                writer.drain_hook = parked_drain
+                results = []
+
+                async def snd(tag):
+                    try:
+                        await ep.send_msg(FIXMessage("D", {11: f"{tag}{step}", 55: "X"}))
+                        results.append("ok")
+                    except FIXConnectionError:
+                        results.append("refused")
+                    except Exception as e:
+                        results.append(type(e).__name__)
+                loop = asyncio.get_running_loop()
+                t1 = loop.create_task(snd("ov1"))
+                await settle()
+                t2 = loop.create_task(snd("ov2"))
+                await settle()
+                try:
+                    await ep.disconnect(ConnectionState.DISCONNECTED_BROKEN_CONN)
+                except Exception as e:
+                    V(f"disconnect-raised:{type(e).__name__}", repr(e))
+                    return trace, refused, accepted
+                await settle()
+                gate.set()
+                writer.drain_hook = None
+                await settle()
+                trace[-1] += ":" + "/".join(results)
+                acc.add("overlapping_sends_cut_by_a_disconnect")
             elif a == "disconnect":
                 try:
                     await ep.disconnect(ConnectionState.DISCONNECTED_WCONN_TODAY, logout_message=rnd.choice([None, "", "end of day"]))
